@@ -283,3 +283,40 @@ def _rle_float_entries(n, b, st, j2, j3, j4):
         eps = sys.float_info.epsilon
         return all(abs(a - e) <= eps * max(abs(a), abs(e)) for a, e in zip(out, seq))
     return out == seq
+
+
+# ---------------------------------------------------------------------------------------------------- documents written to a file with a declared encoding
+
+FILE_TEXTS = ['plain', 'µm', 'café', 'x²', 'Ω·m <&>', 'DEPT µm', '中文', 'naïve "q"']
+FILE_ENCODINGS = ['utf-8', 'latin-1', 'ascii', 'cp1252']
+
+
+def xml_file_declared_encoding(e: int, t0: int, t1: int) -> bool:
+    """
+    pre: 0 <= e <= 3 and 0 <= t0 <= 7 and 0 <= t1 <= 7
+    post: _
+    """
+    e, t0, t1 = mark.pick(e, 0, 3), mark.pick(t0, 0, 7), mark.pick(t1, 0, 7)
+    with mark.untraced():
+        return _xml_file_declared_encoding(e, t0, t1)
+
+
+def _xml_file_declared_encoding(e, t0, t1):
+    """The stream opens the path itself (platform default text encoding) and declares theEnc in the XML declaration: whatever is declared,
+    the parser, which honours the declaration, must give back the attribute and the text that were written."""
+    import shutil
+    import tempfile
+    tmp = tempfile.mkdtemp(prefix='verif_c18_')
+    try:
+        path = os.path.join(tmp, 'doc.xml')
+        with XmlWrite.XmlStream(path, theEnc=FILE_ENCODINGS[e]) as xs:
+            with XmlWrite.Element(xs, 'Root', {'units': FILE_TEXTS[t0]}):
+                xs.characters(FILE_TEXTS[t1])
+        mark.hit()
+        try:
+            root = ET.parse(path).getroot()
+        except ET.ParseError:
+            return False
+        return root.get('units') == FILE_TEXTS[t0] and (root.text or '') == FILE_TEXTS[t1]
+    finally:
+        shutil.rmtree(tmp, ignore_errors=True)
